@@ -45,7 +45,7 @@ type vfC01Tamper struct {
 }
 
 var vfC01ZoneEdits = []string{"empty", "corrupt-sigs", "strip-sigs", "strip-dnssec", "expired", "not-yet-valid", "foreign-signer", "rogue-key", "rogue-key"}
-var vfC01KindEdits = []string{"wildcard-replay", "wildcard-replay", "empty", "flip-rdata", "flip-one", "flip-one", "ent-signer", "corrupt-sigs", "strip-sigs", "expired", "drop-denial", "flip-rcode", "strip-ds", "swap-ds", "inject-foreign", "inject-foreign", "inject-foreign", "replace-unsigned", "foreign-signer", "sibling-denial"}
+var vfC01KindEdits = []string{"wildcard-replay", "wildcard-replay", "empty", "flip-rdata", "flip-one", "flip-one", "ent-signer", "wildcard-nsec-rename", "wildcard-nsec-rename", "corrupt-sigs", "strip-sigs", "expired", "drop-denial", "flip-rcode", "strip-ds", "swap-ds", "inject-foreign", "inject-foreign", "inject-foreign", "replace-unsigned", "foreign-signer", "sibling-denial"}
 
 func (tm *vfC01Tamper) decisive() bool { return tm != nil && tm.Kind == "" }
 
@@ -180,6 +180,43 @@ func vfC01Apply(w *vfworld.World, tm *vfC01Tamper, resp *dns.Msg, info vfworld.I
 		return true
 	}
 	switch tm.Edit {
+	case "wildcard-nsec-rename":
+		// a positive answer is replaced by a "NODATA" built from the signer's own records: the SOA, and the NSEC of the
+		// sibling wildcard printed under the question's name - its signature (Labels below the owner's label count) still
+		// verifies as a wildcard expansion, and its type bitmap lacks the type asked for
+		if z == nil || !z.Signed || z.NSEC3 || info.Out.Kind != "answer" || info.Out.Wildcard || len(resp.Question) != 1 {
+			break
+		}
+		q := resp.Question[0]
+		qn := strings.ToLower(q.Name)
+		ls := dns.SplitDomainName(qn)
+		if len(ls) <= len(dns.SplitDomainName(z.Apex)) {
+			break
+		}
+		wc := "*." + strings.Join(ls[1:], ".") + "."
+		if z.Owners[wc] == nil || z.Owners[wc][q.Qtype] {
+			break
+		}
+		var wn *dns.NSEC
+		for _, n := range z.NSECs() {
+			if strings.EqualFold(n.Hdr.Name, wc) {
+				wn = n
+			}
+		}
+		soa := z.RRset(z.Apex, dns.TypeSOA)
+		if wn == nil || len(soa) == 0 {
+			break
+		}
+		nsig, ssig := z.Sign([]dns.RR{wn}), z.Sign(soa)
+		if nsig == nil || ssig == nil {
+			break
+		}
+		forged := dns.Copy(wn)
+		forged.Header().Name = qn
+		nsig.Hdr.Name = qn
+		resp.Answer = nil
+		resp.Ns = append(append([]dns.RR{}, soa...), ssig, forged, nsig)
+		changed = true
 	case "flip-one":
 		// one RRset of several is altered and keeps its (now wrong) signature; the others stay intact. Which one:
 		// by the order (owner, type) a validator might walk them in - mostly not the first
@@ -852,7 +889,7 @@ func vfC01Gen(rt *rapid.T) *vfC01Case {
 	// edits that need a particular shape of name: aim them at one (a sibling of a wildcard; an owner at least two labels
 	// below its apex) instead of waiting for the zone and the question to coincide
 	directedName := ""
-	if c.Tamper != nil && (c.Tamper.Edit == "wildcard-replay" || c.Tamper.Edit == "ent-signer") {
+	if c.Tamper != nil && (c.Tamper.Edit == "wildcard-replay" || c.Tamper.Edit == "ent-signer" || c.Tamper.Edit == "wildcard-nsec-rename") {
 		var cand [][2]string
 		for _, a := range apexes {
 			z := c.W.Zones[a]
@@ -869,10 +906,13 @@ func vfC01Gen(rt *rapid.T) *vfC01Case {
 				if strings.HasPrefix(o, "*") || len(ls) < len(al)+2 || !(z.Owners[o][dns.TypeA] || z.Owners[o][dns.TypeTXT]) {
 					continue
 				}
-				if c.Tamper.Edit == "wildcard-replay" {
+				if c.Tamper.Edit == "wildcard-replay" || c.Tamper.Edit == "wildcard-nsec-rename" {
 					if _, ok := z.Owners["*."+strings.Join(ls[1:], ".")+"."]; !ok {
 						continue
 					}
+				}
+				if c.Tamper.Edit == "wildcard-nsec-rename" && (z.NSEC3 || !z.Owners[o][dns.TypeAAAA]) {
+					continue
 				}
 				cand = append(cand, [2]string{o, a})
 			}
@@ -880,7 +920,7 @@ func vfC01Gen(rt *rapid.T) *vfC01Case {
 		if len(cand) > 0 && rapid.IntRange(0, 3).Draw(rt, "directed") != 0 {
 			k := cand[rapid.IntRange(0, len(cand)-1).Draw(rt, "directedwhich")]
 			directedName, c.Tamper.Zone = k[0], k[1]
-			if c.Tamper.Edit == "ent-signer" {
+			if c.Tamper.Edit == "ent-signer" || c.Tamper.Edit == "wildcard-nsec-rename" {
 				c.Tamper.Kind = "answer"
 			}
 		}
@@ -949,6 +989,9 @@ func vfC01Gen(rt *rapid.T) *vfC01Case {
 			st.Qtype = dns.TypeA
 			if z := c.W.Zones[c.Tamper.Zone]; z != nil && !z.Owners[directedName][dns.TypeA] {
 				st.Qtype = dns.TypeTXT
+			}
+			if c.Tamper.Edit == "wildcard-nsec-rename" {
+				st.Qtype = dns.TypeAAAA
 			}
 		}
 		if bareAlias != "" && prev == nil {
